@@ -166,6 +166,22 @@ def _has_new_completed_trials(
   return max(completed_completion_times) > max(active_creation_times)  # pytype:disable=unsupported-operands
 
 
+def _stddev(dist: tfd.Distribution) -> jax.Array:
+  """Predicted standard deviation, safe at (and next to) conditioned points.
+
+  With a tiny observation noise the posterior variance at a conditioned point
+  is a difference of nearly equal numbers and can come out slightly negative,
+  whose square root is NaN; a NaN acquisition value then poisons the optimizer.
+
+  Args:
+    dist: Predictive distribution.
+
+  Returns:
+    The square root of the variance floored at zero.
+  """
+  return jnp.sqrt(jnp.maximum(dist.variance(), 0.0))
+
+
 def _compute_ucb_threshold(
     gprm: tfd.Distribution,
     is_missing: jt.Bool[jt.Array, ''],
@@ -193,7 +209,7 @@ def _compute_ucb_threshold(
     ucb_values = jnp.where(
         jnp.tile(is_missing[:, jnp.newaxis], (1, pred_mean.shape[-1])),
         -jnp.inf,
-        pred_mean + ucb_coefficient * gprm.stddev(),
+        pred_mean + ucb_coefficient * _stddev(gprm),
     )
     # The indices of the points with the maximum UCB values for each metric.
     best_ucb_indices = jnp.argmax(ucb_values, axis=0)
@@ -206,7 +222,7 @@ def _compute_ucb_threshold(
     # In the single metric case, the predicted mean and stddev are of shape
     # [num_points].
     ucb_values = jnp.where(
-        is_missing, -jnp.inf, pred_mean + ucb_coefficient * gprm.stddev()
+        is_missing, -jnp.inf, pred_mean + ucb_coefficient * _stddev(gprm)
     )
     return pred_mean[jnp.argmax(ucb_values)]
 
@@ -342,7 +358,7 @@ class UCBScoreFunction(eqx.Module):
     gprm = self.predictive.predict(xs)
     gprm_all_features = self.predictive_all_features.predict(xs)
     mean = gprm.mean()
-    stddev_from_all = gprm_all_features.stddev()
+    stddev_from_all = _stddev(gprm_all_features)
     acq_values = mean + self.ucb_coefficient * stddev_from_all
     # `self.labels` is of shape [num_index_points, num_metrics].
     if self.labels.shape[1] > 1:
@@ -365,7 +381,7 @@ class UCBScoreFunction(eqx.Module):
       )
     aux = {
         'mean': mean,
-        'stddev': gprm.stddev(),
+        'stddev': _stddev(gprm),
         'stddev_from_all': stddev_from_all,
     }
     if self.prior_acquisition is not None:
@@ -439,11 +455,11 @@ class PEScoreFunction(eqx.Module):
     )
     gprm = self.predictive.predict(xs)
     mean = gprm.mean()
-    stddev = gprm.stddev()
+    stddev = _stddev(gprm)
     explore_ucb = mean + stddev * self.explore_ucb_coefficient
 
     gprm_all = self.predictive_all_features.predict(xs)
-    stddev_from_all = gprm_all.stddev()
+    stddev_from_all = _stddev(gprm_all)
     penalty = self.penalty_coefficient * jnp.minimum(
         explore_ucb - threshold,
         0.0,
@@ -561,7 +577,7 @@ class SetPEScoreFunction(eqx.Module):
     )
     gprm = self.predictive.predict(xs)
     mean = gprm.mean()
-    stddev = gprm.stddev()
+    stddev = _stddev(gprm)
     explore_ucb = mean + stddev * self.explore_ucb_coefficient
 
     gprm_all = self.predictive_all_features.predict(xs)
